@@ -632,7 +632,7 @@ func C18() *check.Property {
 			"(ERR-RESULT-USED), sources are released (RELEASE), contexts flow (CTX-PROVENANCE), state is per subscription (STATE-LEVEL), errors propagate (ERR-PROPAGATION), user functions run in protected places (USER-FN-CONTEXT).",
 		NotDecided:  "value equality with the wrapped library function, round-trip identity of encoders/decoders, that sorting yields a sorted permutation, chunk concatenation of readers — all quantify over input values.",
 		Assumptions: []string{"the documented aliasing behaviour of the standard library functions listed in the checker"},
-		Floors:      map[string]int{"stable_operators": 1, "slice_receiving_functions": 20, "unicode_classifications": 4, "acquisitions": 150, "lift_functions": 20, "lift_returns": 20, "io_param_assertions": 2},
+		Floors:      map[string]int{"stable_operators": 1, "slice_receiving_functions": 20, "unicode_classifications": 4, "acquisitions": 150, "lift_functions": 20, "lift_returns": 20, "io_param_assertions": 1},
 		Controls: map[string]string{
 			"plugins/sort/zz_verif_controls_c18.go":  pluginControl("rosort", []string{`"context"`, `"sort"`, `"github.com/samber/ro"`}, controlsC18Sort),
 			"plugins/bytes/zz_verif_controls_c18.go": pluginControl("robytes", []string{`"bytes"`, `"unicode"`}, controlsC18Bytes),
